@@ -129,6 +129,42 @@ fn gen_desc_text(rng: &mut Rng) -> String {
     s.trim().to_string()
 }
 
+/// One sequence a little longer than 2^24 = 16 777 216 bases: counters kept in f32 stop
+/// counting there, and so would a 24-bit field.  Either low-complexity (one canonical k-mer
+/// occurs more than 2^24 times) or random (the number of windows alone passes 2^24).
+pub fn gen_huge_seq(rng: &mut Rng) -> String {
+    let len = 16_790_000 + rng.usize(0, 500_000);
+    let mut v: Vec<u8> = Vec::with_capacity(len);
+    match rng.below(3) {
+        0 => {
+            let b = *rng.pick(b"ACGT");
+            v.resize(len, b);
+            for _ in 0..rng.usize(0, 40) {
+                let at = rng.usize(0, len - 1);
+                v[at] = *rng.pick(b"ACGTN");
+            }
+        }
+        1 => {
+            let unit: Vec<u8> = (0..rng.usize(2, 3)).map(|_| *rng.pick(b"ACGT")).collect();
+            while v.len() < len {
+                v.extend_from_slice(&unit);
+            }
+            v.truncate(len);
+        }
+        _ => {
+            while v.len() < len {
+                let mut x = rng.next_u64();
+                for _ in 0..32 {
+                    v.push(b"ACGT"[(x & 3) as usize]);
+                    x >>= 2;
+                }
+            }
+            v.truncate(len);
+        }
+    }
+    String::from_utf8(v).unwrap()
+}
+
 pub struct RecGen {
     pub min_records: usize,
     pub max_records: usize,
@@ -267,7 +303,8 @@ pub fn gen_container(rng: &mut Rng, records: &[Rec], allow_multi_member: bool, a
     let mut c = if fastq {
         Container {
             format: Format::Fastq,
-            wrap: 0,
+            // one FASTQ in five is multi-line (legal, and what the reader accepts)
+            wrap: if rng.chance(1, 5) { *rng.pick(&[1usize, 3, 10, 60, 61, 80]) } else { 0 },
             crlf: rng.chance(1, 6),
             final_newline: !rng.chance(1, 6),
             gz: None,
